@@ -101,7 +101,7 @@ structure M where
   efunCtx : List Nat := []       -- the contexts efuns keep in file-scope lists across their callbacks (sort_ctx_top / sort_array_ftc,
                                  -- g_u_list, g_u_m_list): innermost first; every one has a T_ERROR_HANDLER slot that unlinks the HEAD
   numVarargs : Nat := 0          -- num_varargs (interpret.c): arguments added by `...` spreads that the next call / efun /
-                                 -- array literal instruction adds to its count; NOT part of any error context (see notes: open finding)
+                                 -- array literal instruction adds to its count; cleared by that instruction and by restore_context
   hbCur : Val := 0               -- current_heart_beat (backend.c): the object whose heart_beat() is running, 0 = none
   hbOff : List Val := []         -- objects whose heart beat error_handler has switched off (set_heart_beat (ob, 0)), newest first
   deriving Repr, Inhabited
@@ -172,10 +172,10 @@ def saveContext (m : M) : Option (Ctx × M) :=
     when it saved) and clear the error state -/
 def popContext (link : List Ctx) (m : M) : M := { m with ctxs := link, errState := 0 }
 
-/-- restore_context, exactly as coded: command_giver, the two guards (restore_object_limits) and last_verb; if csp > save_csp then csp = save_csp + 1 and ONE
+/-- restore_context, exactly as coded: command_giver, the two guards (restore_object_limits), last_verb, `num_varargs = 0`; if csp > save_csp then csp = save_csp + 1 and ONE
     pop_control_stack; then pop_n_elems (sp - save_sp) — a negative difference converts to a huge size_t -/
 def restoreContext (e : Ctx) (m : M) : Res :=
-  let m1 := { m with cg := e.saveCg, loadDepth := e.saveLd, restrictDestruct := e.saveRd, lastVerb := e.saveVerb }
+  let m1 := { m with cg := e.saveCg, loadDepth := e.saveLd, restrictDestruct := e.saveRd, lastVerb := e.saveVerb, numVarargs := 0 }
   let m2? : Option M :=
     if m1.cs.length > e.saveCsp then
       popFrame { m1 with cs := m1.cs.drop (m1.cs.length - (e.saveCsp + 1)) }
